@@ -39,7 +39,36 @@ fn describe(kind: &str, toks: &[TokenTree]) -> Option<String> {
         }
         i += 1;
     }
-    Some(format!("kind={kind} lit={} bytes={} prio={prio} icase={icase} allow_greedy={allow_greedy}", crate::hex(&bytes), is_bytes as u8))
+    // does the attribute declare a callback?  Items are separated by top-level commas; the item after the literal is a
+    // positional callback unless it is one of the named arguments; `callback = ..` may stand anywhere after the literal
+    let mut items: Vec<Vec<&TokenTree>> = vec![vec![]];
+    for t in toks {
+        if let TokenTree::Punct(p) = t {
+            if p.as_char() == ',' {
+                items.push(vec![]);
+                continue;
+            }
+        }
+        items.last_mut().unwrap().push(t);
+    }
+    let mut cb = 0;
+    for (k, it) in items.iter().enumerate().skip(1) {
+        let Some(first) = it.first() else { continue };
+        let mut named = false;
+        if let TokenTree::Ident(id) = first {
+            let name = id.to_string();
+            match it.get(1) {
+                Some(TokenTree::Punct(p)) if p.as_char() == '=' && it.len() >= 3 && ["priority", "allow_greedy", "callback"].contains(&name.as_str()) => {
+                    named = true;
+                    if name == "callback" { cb = 1 }
+                }
+                Some(TokenTree::Group(_)) if name == "ignore" && it.len() == 2 => named = true,
+                _ => {}
+            }
+        }
+        if !named && k == 1 { cb = 1 }
+    }
+    Some(format!("kind={kind} lit={} bytes={} prio={prio} icase={icase} allow_greedy={allow_greedy} cb={cb}", crate::hex(&bytes), is_bytes as u8))
 }
 
 fn skip_items(ts: TokenStream, out: &mut Vec<String>) {
